@@ -344,7 +344,7 @@ func corpusC11() []*Bundle {
 func init() {
 	register(&Property{
 		ID: "C11", Plain: true, Level: "exploration",
-		Rule:   "cases = fixed corpus (27 plain queries over filters/subqueries/EXISTS/IN/back-references/CTE chains/derived tables/joins incl. PARALLEL/ORDER BY/LIMIT/DISTINCT/aggregates/UNION/ASYNC+SPIN stubs, each with and without Wrapped, plus every C19 fault position) and rapid-generated queries with 1-4 fault sites and optional ASYNC/SPIN/SPINASYNC stubs; for each query one fault-free run and then one run per crash point: every invocation index k=1..N of every site x {error, panic(error value), panic(string)}, RAISE_WHEN on every row j, a wrongly-typed value in every row j; the harness records identity (map pointers, slice data pointer/len/cap, sentinel-filled spare capacity) and content of the whole input before the call and compares at return and again after all background tasks drained; non-trivial = fault fired or >=2 tasks runnable or non-identity map order; distinct = case-file hash",
+		Rule:   "cases = fixed corpus (27 plain queries over filters/subqueries/EXISTS/IN/back-references/CTE chains/derived tables/joins incl. PARALLEL/ORDER BY/LIMIT/DISTINCT/aggregates/UNION/ASYNC+SPIN stubs, each with and without Wrapped, plus every C19 fault position) and rapid-generated queries with 1-4 fault sites and optional ASYNC/SPIN/SPINASYNC stubs; for each query one fault-free run and then one run per crash point: every invocation index k=1..N of every site x {error, panic(error value), panic(string)}, RAISE_WHEN on every row j, a wrongly-typed value in every row j; the harness records identity (map pointers, slice data pointer/len/cap, sentinel-filled spare capacity) and content of the whole input before the call and compares at return and again after all background tasks drained; non-trivial = fault fired or >=2 tasks runnable or non-identity map order; distinct = case-file hash; USING joins, array-of-arrays fault queries, Go-typed ([]map[string]any) input tables",
 		Corpus: corpusC11, Gen: genC11, Eval: evalC11, QuickChecks: 150,
 		Assumptions: []string{
 			"documents are built from JSON (map[string]any, []any, float64, string, bool, nil) with sentinel-filled spare slice capacity",
